@@ -165,7 +165,7 @@ static void destroy_obj(Obj& o, int opidx) {
 }
 
 static void release_conts(Ctx& c, Obj& o) {
-  for (int s : o.using_conts) { Obj* k = c.get(s); if (k && k->type == T_CONT && k->users > 0) --k->users; }
+  for (int s : o.using_conts) { if (s >= 100) continue; Obj* k = c.get(s); if (k && k->type == T_CONT && k->users > 0) --k->users; }
   o.using_conts.clear();
 }
 
@@ -327,6 +327,7 @@ static void h_new_cont(Ctx& c, const Op& op, int idx, OpResult& r) {
 }
 static void h_del(Ctx& c, const Op& op, int idx, OpResult& r) {
   Obj* o = c.get(op.o); if (!o || o->type == T_NONE) SKIP(r);
+  if (op.o >= 100 && c.task != -1) SKIP(r);                   // shared objects belong to the set-up thread
   if (o->type == T_CONT && o->users > 0) SKIP(r);           // API contract: the container owns the vertices
   if (o->type == T_C64 || o->type == T_CD) release_conts(c, *o);
   destroy_obj(*o, idx);
@@ -351,7 +352,7 @@ static void h_c_reuse(Ctx& c, const Op& op, int idx, OpResult& r) {
   for (int s : o->using_conts) if (s == op.o2) SKIP(r);    // one clipper never adds the same container twice
   { Scope sc(idx); o->c64->AddReuseableData(*k->cont); }
   for (const Batch& b : k->batches) o->batches.push_back(b); // snapshot of the container's content at this moment
-  o->using_conts.push_back(op.o2); ++k->users; ++o->n_reuse;
+  o->using_conts.push_back(op.o2); if (op.o2 < 100) ++k->users; ++o->n_reuse;   // shared (set-up) containers are read-only for tasks, also in the model
 }
 static void h_c_pc(Ctx& c, const Op& op, int idx, OpResult& r) {
   Obj* o = c.get(op.o); if (!o) SKIP(r);
@@ -398,6 +399,7 @@ static void h_c_defz(Ctx& c, const Op& op, int idx, OpResult& r) {
 }
 static void h_c_clear(Ctx& c, const Op& op, int idx, OpResult& r) {
   Obj* o = c.get(op.o); if (!o) SKIP(r);
+  if (op.o >= 100 && c.task != -1) SKIP(r);
   if (o->type == T_C64) { Scope sc(idx); o->c64->Clear(); }
   else if (o->type == T_CD) { Scope sc(idx); o->cd->Clear(); }
   else if (o->type == T_OFF) { { Scope sc(idx); o->off->Clear(); } o->groups.clear(); ++o->n_clear; return; }
@@ -478,6 +480,7 @@ static void h_c_exec(Ctx& c, const Op& op, int idx, OpResult& r) {
 // ---- container
 static void h_k_add(Ctx& c, const Op& op, int idx, OpResult& r) {
   Obj* o = c.get(op.o); if (!o || o->type != T_CONT || !op.hasP[0]) SKIP(r);
+  if (op.o >= 100 && c.task != -1) SKIP(r);
   int type = (int)(ai(op, 0) & 1); bool open = ai(op, 1) != 0;
   if (type == 1 && open) open = false;                           // open clip paths are not part of the API
   Batch b; b.p = to64(op.P[0]); b.kind = type == 1 ? 2 : (open ? 1 : 0);
@@ -606,16 +609,31 @@ static void alone_check(const Obj& m, double delta, const Paths64& combined, OpR
       Path64 tmp = g.paths[pi]; StripDuplicates(tmp, true);
       if (tmp.size() == 2) twopt_before_in_group = true;
     }
-    char b[400];
-    snprintf(b, sizeof b, "et=%s jt=%s len=%d first_in_group=%d twopt_earlier_in_group=%d empty_polygon_group_earlier=%d reversed_polygon_group_in_call=%d group_is_polygon=%d dcb=%d delta_sign=%d any_path_before=%d",
+    // does the combined result equal exactly the alone results of the Polygon-group paths (i.e. all and only the
+    // results of open-path groups are missing)?
+    bool only_open_missing = false;
+    {
+      Paths64 poly_only;
+      for (size_t q = 0; q < per_path.size(); ++q) if ((EndType)m.groups[ids[q].first].et == EndType::Polygon) for (const Path64& p : per_path[q]) poly_only.push_back(p);
+      Paths64 cp = canon_multiset(poly_only);
+      only_open_missing = cp.size() == ca.size();
+      for (size_t q = 0; only_open_missing && q < cp.size(); ++q) only_open_missing = path_eq(cp[q], ca[q]);
+    }
+    char b[500];
+    snprintf(b, sizeof b, "et=%s jt=%s len=%d first_in_group=%d twopt_earlier_in_group=%d empty_polygon_group_earlier=%d reversed_polygon_group_in_call=%d group_is_polygon=%d only_open_group_results_missing=%d dcb=%d delta_sign=%d any_path_before=%d",
              et_name(g.et), jt_name(g.jt), lencls(g.paths[ids[k].second].size()), ids[k].second == 0, twopt_before_in_group, empty_poly_group_before,
-             first_poly_reversed && has_nonpoly, (EndType)g.et == EndType::Polygon, m.dcb_kind > 0 ? 1 : 0, delta < 0 ? -1 : 1, any_before);
+             first_poly_reversed && has_nonpoly, (EndType)g.et == EndType::Polygon, only_open_missing, m.dcb_kind > 0 ? 1 : 0, delta < 0 ? -1 : 1, any_before);
     sig = b;
     r.detail = "input path g" + std::to_string(ids[k].first) + "/p" + std::to_string(ids[k].second) + " = " + dump_paths(Paths64{g.paths[ids[k].second]}) +
                "\nalone result:    " + dump_paths(per_path[k]) + "\ncombined result: " + dump_paths(combined) + "\nexpected union of alone results: " + dump_paths(expect);
     break;
   }
-  if (sig == "none") r.detail = "combined result has extra paths\ncombined: " + dump_paths(combined) + "\nexpected: " + dump_paths(expect);
+  if (sig == "none") {
+    bool empty_poly = false, reversed = false;
+    for (const OffGroup& gg : m.groups) if ((EndType)gg.et == EndType::Polygon) { bool all_empty = true; for (const Path64& p : gg.paths) { if (!p.empty()) all_empty = false; if (Area(p) < 0) reversed = true; } if (all_empty) empty_poly = true; }
+    sig = std::string("extra-paths-in-combined-result empty_polygon_group_in_call=") + (empty_poly ? "1" : "0") + " reversed_polygon_group_in_call=" + (reversed ? "1" : "0") + " dcb=" + (m.dcb_kind > 0 ? "1" : "0");
+    r.detail = "combined result has extra paths\ncombined: " + dump_paths(combined) + "\nexpected: " + dump_paths(expect);
+  }
   r.sig = sig;
 }
 
